@@ -85,8 +85,9 @@ Fixpoint exact_loop (now : Z) (hs : list hint) (w : work) : work * list bool :=
                 let '(w2, sat) := exact_loop now hs' w1 in (w2, hit :: sat)
   end.
 
-(* loop 2, inner: all leases not given out yet (of the hinted length, if the hint has one) *)
-Fixpoint empty_inner (now : Z) (h : hint) (w : work) (li : nat) (fuel : nat) : work * bool :=
+(* loop 2, inner: the leases not given out yet (of the hinted length, if the hint has one); with
+   `one` set, only the first of them: the others are left for the empty hints that follow *)
+Fixpoint empty_inner (now : Z) (h : hint) (one : bool) (w : work) (li : nat) (fuel : nat) : work * bool :=
   match fuel with
   | O => (w, false)
   | S f =>
@@ -98,19 +99,24 @@ Fixpoint empty_inner (now : Z) (h : hint) (w : work) (li : nat) (fuel : nat) : w
                       | Some (_, hm) => negb (ones_of hm =? 0)%Z && negb (ones_of hm =? ones_of (ls_mask l))%Z
                       | None => false
                       end in
-          let '(w1, hit) := if skip then (w, false) else (give now w li, true) in
-          let '(w2, hit2) := empty_inner now h w1 (S li) f in (w2, hit || hit2)
+          if skip then empty_inner now h one w (S li) f
+          else if one then (give now w li, true)
+          else let '(w2, _) := empty_inner now h one (give now w li) (S li) f in (w2, true)
       end
   end.
 
-Fixpoint empty_loop (now : Z) (hs : list hint) (sat : list bool) (w : work) : work * list bool :=
+(* `remaining`: empty unsatisfied hints not processed yet, this one included *)
+Fixpoint empty_loop (now : Z) (hs : list hint) (sat : list bool) (remaining : nat) (w : work) : work * list bool :=
   match hs, sat with
   | h :: hs', s :: sat' =>
-      if s || negb (empty_hint h) then let '(w2, sat2) := empty_loop now hs' sat' w in (w2, s :: sat2)
-      else let '(w1, hit) := empty_inner now h w 0 (length (w_leases w)) in
-           let '(w2, sat2) := empty_loop now hs' sat' w1 in (w2, hit :: sat2)
+      if s || negb (empty_hint h) then let '(w2, sat2) := empty_loop now hs' sat' remaining w in (w2, s :: sat2)
+      else let '(w1, hit) := empty_inner now h (Nat.ltb 0 (pred remaining)) w 0 (length (w_leases w)) in
+           let '(w2, sat2) := empty_loop now hs' sat' (pred remaining) w1 in (w2, hit :: sat2)
   | _, _ => (w, [])
   end.
+
+Definition count_empty (hs : list hint) (sat : list bool) : nat :=
+  length (filter (fun hs => negb (snd hs || negb (empty_hint (fst hs)))) (combine hs sat)).
 
 (* loop 3: a new lease for every hint still unsatisfied; an allocation error skips the hint *)
 Fixpoint alloc_loop (now : Z) (hs : list hint) (sat : list bool) (a : a6) (w : work) (new : bool)
@@ -138,7 +144,7 @@ Definition one_iapd (now : Z) (st : pstate) (client : bytes) (hints : list hint)
   let known := precs_get client (ps_recs st) in
   let w0 := {| w_leases := known; w_given := repeat false (length known); w_out := [] |} in
   let '(w1, sat1) := exact_loop now hints w0 in
-  let '(w2, sat2) := empty_loop now hints sat1 w1 in
+  let '(w2, sat2) := empty_loop now hints sat1 (count_empty hints sat1) w1 in
   match alloc_loop now hints sat2 (ps_alloc st) w2 false with
   | Panic => Panic
   | Err e => Err e
